@@ -11,11 +11,13 @@ Check C09_additions_and_removals :
   forall program refs max_cost gf b spends pairs,
     run_block_generator2 run valid_key sig_ok H K program refs max_cost gf = Ok (b, spends, pairs) ->
     max_cost <= MAX_BLOCK_COST_CLVM ->
-    exists adds,
-      additions_and_removals run H program refs gf = Ok (adds, map removal_of spends) /\
-      map fst adds = map fst (concat (map expected_additions spends)) /\
-      (~ known_class_empty_hint adds -> adds = concat (map expected_additions spends)).
+    additions_and_removals run H program refs gf =
+      Ok (concat (map expected_additions spends), map removal_of spends).
 Print Assumptions C09_additions_and_removals.
+Check C09_no_empty_hint :
+  forall run H program refs gf adds rems,
+  additions_and_removals run H program refs gf = Ok (adds, rems) -> Forall hint_nonempty adds.
+Print Assumptions C09_no_empty_hint.
 Check C09_additions_per_spend :
   forall run valid_key sig_ok H K, run_exact_hyp run ->
   forall program refs max_cost gf b spends pairs,
@@ -25,32 +27,30 @@ Check C09_additions_per_spend :
       additions_and_removals run H program refs gf = Ok (concat groups, map removal_of spends) /\
       Forall2 group_ok spends groups.
 Print Assumptions C09_additions_per_spend.
-Check C09_hints_refuted :
+Check C09_empty_memo_example :
   exists run H, run_exact_hyp run /\
   exists vk sig K program refs max_cost gf b spends pairs adds rems,
     max_cost <= MAX_BLOCK_COST_CLVM /\
     run_block_generator2 run vk sig H K program refs max_cost gf = Ok (b, spends, pairs) /\
     additions_and_removals run H program refs gf = Ok (adds, rems) /\
-    map snd adds = [Some []] /\
-    map snd (concat (map expected_additions spends)) = [None].
-Print Assumptions C09_hints_refuted.
+    map snd adds = [None] /\ adds = concat (map expected_additions spends).
+Print Assumptions C09_empty_memo_example.
 Check C09_lookup :
   forall run valid_key sig_ok H K program refs max_cost gf b spends pairs,
   run_block_generator2 run valid_key sig_ok H K program refs max_cost gf = Ok (b, spends, pairs) ->
   exists out iter,
     native_generator_output run program refs max_cost gf = Ok out /\ first out = Ok iter /\
-    (no_extras iter ->
-     Forall2 (fun sp t => let '(_, pz, _, sol) := t in
-                          get_puzzle_and_solution_for_coin H out (snd (removal_of sp)) = Ok (pz, sol))
-             spends (spend_tuples iter)).
+    Forall2 (fun sp t => let '(_, pz, _, sol) := t in
+                         get_puzzle_and_solution_for_coin H out (snd (removal_of sp)) = Ok (pz, sol))
+            spends (spend_tuples iter).
 Print Assumptions C09_lookup.
-Check C09_lookup_extras_refuted :
+Check C09_lookup_extras_example :
   exists run H, run_exact_hyp run /\
-  exists vk sig K program refs max_cost gf b sp pairs out,
+  exists vk sig K program refs max_cost gf b sp pairs out ps,
     run_block_generator2 run vk sig H K program refs max_cost gf = Ok (b, [sp], pairs) /\
     native_generator_output run program refs max_cost gf = Ok out /\
-    (exists e, get_puzzle_and_solution_for_coin H out (snd (removal_of sp)) = Err e).
-Print Assumptions C09_lookup_extras_refuted.
+    get_puzzle_and_solution_for_coin H out (snd (removal_of sp)) = Ok ps.
+Print Assumptions C09_lookup_extras_example.
 Check C09_coin_spends :
   forall run valid_key sig_ok H K, run_exact_hyp run ->
   forall program refs max_cost gf b spends pairs,
@@ -68,5 +68,5 @@ Check C09_example :
     max_cost <= MAX_BLOCK_COST_CLVM /\
     run_block_generator2 run vk sig H K program refs max_cost gf = Ok (b, spends, pairs) /\
     additions_and_removals run H program refs gf = Ok (adds, map removal_of spends) /\
-    ~ known_class_empty_hint adds /\ map snd adds = [Some (repeat x33 32)].
+    map snd adds = [Some (repeat x33 32)].
 Print Assumptions C09_example.
